@@ -16,10 +16,11 @@ text = open(diff).read()
 parts = re.split(r'(?m)^(?=--- )', text)
 import numpy
 for part in parts:
-    m = re.search(r'^\+\+\+ (\S+)', part, re.M)
-    if not m:
+    cands = re.findall(r'^(?:\+\+\+|---) (\S+)', part, re.M)
+    cands = [c for c in cands if 'src/biotite/' in c]
+    if not cands:
         continue
-    rel = m.group(1)
+    rel = cands[-1]
     rel = rel[rel.index('src/biotite/'):]
     tgt = os.path.join(wt, rel)
     p = subprocess.run(['patch', '-s', tgt], input=part, text=True, capture_output=True)
